@@ -1,24 +1,31 @@
 #!/bin/bash
-# Applies every kept seeded change to /repo in turn, runs the quick check of its property, undoes it,
-# and writes /verif/seeded/RESULTS.md. Usage: tools_run_all_seeds.sh [tier]
-TIER="${1:-quick}"
+# Applies kept seeded changes to /repo in turn, runs the quick check of the seed's property, undoes it,
+# records one line per seed in seeded/<seed>/result.txt and regenerates /verif/seeded/RESULTS.md from
+# all result.txt files.
+# Usage: tools_run_all_seeds.sh [tier] [ID ...]     (no IDs = every property; IDs = only seeds of those)
+TIER="${1:-quick}"; shift
 export VERIF_EVIDENCE_DIR=/tmp/ommx-mc-seed-evidence
+ONLY=" $* "
 cd /verif
-out=seeded/RESULTS.md
-echo "# Seeded changes vs checks (tier: $TIER)" > $out
-echo "" >> $out
-echo "| seed | property | detected | signatures reported |" >> $out
-echo "|---|---|---|---|" >> $out
 for d in seeded/C*-*/; do
   s=$(basename $d); id=${s%%-*}
+  if [ "$ONLY" != "  " ] && [[ "$ONLY" != *" $id "* ]]; then continue; fi
   if ! git -C /repo diff --quiet; then echo "repo dirty"; exit 2; fi
-  git -C /repo apply /verif/$d/patch.diff || { echo "| $s | $id | PATCH DOES NOT APPLY | |" >> $out; continue; }
+  if ! git -C /repo apply /verif/$d/patch.diff; then echo "| $s | $id | PATCH DOES NOT APPLY | |" > $d/result.txt; continue; fi
   res=$(./check $id $TIER 2>&1)
   rc=$?
   git -C /repo checkout -- .
   sigs=$(echo "$res" | grep -oE "signature=[^ ]+" | sed 's/signature=//' | sort -u | head -6 | tr '\n' ' ')
   if [ $rc -eq 1 ]; then det=yes; elif [ $rc -eq 0 ]; then det="**NO**"; else det="engine error ($rc)"; fi
-  echo "| $s | $id | $det | $sigs |" >> $out
+  echo "| $s | $id | $det | $sigs |" > $d/result.txt
   echo "$s rc=$rc"
 done
+out=seeded/RESULTS.md
+{
+  echo "# Seeded changes vs checks (tier: $TIER)"
+  echo ""
+  echo "| seed | property | detected | signatures reported |"
+  echo "|---|---|---|---|"
+  cat seeded/C*-*/result.txt 2>/dev/null
+} > $out
 ./check C01 quick > /dev/null 2>&1 # rebuild against the clean tree
